@@ -5,7 +5,7 @@ From Coq Require Import ZArith Reals Floats Bool.
 From Flocq Require Import Core BinarySingleNaN PrimFloat.
 From Coquelicot Require Import Complex.
 From PB Require Import Proofs.TwoSumExact Model.Phase2 Proofs.Floor Proofs.DayFrac Proofs.DayFrac3 Proofs.PhaseAdd Proofs.PhaseMore
-  Proofs.DayFracTail Proofs.TwoProduct Proofs.PhaseMul Proofs.PhaseAbs Proofs.PhaseDiv Model.PhaseOrd Model.PhaseDivmod Proofs.PhaseArgmin Proofs.PhaseDivmodProofs Proofs.PhaseDivmodFloor Proofs.FmodSpec Proofs.FloorDivSpec Proofs.PhaseDivmodFinal Gen.GenPhase Proofs.PhaseGen.
+  Proofs.DayFracTail Proofs.TwoProduct Proofs.PhaseMul Proofs.PhaseAbs Proofs.PhaseDiv Model.PhaseOrd Model.PhaseDivmod Proofs.PhaseArgmin Proofs.PhaseDivmodProofs Proofs.PhaseDivmodFloor Proofs.FmodSpec Proofs.FloorDivSpec Proofs.PhaseDivmodFinal Gen.GenPhase Proofs.PhaseGen Gen.GenPhaseOrd Proofs.PhaseOrdGen.
 Open Scope R_scope.
 Notation fexp := (FLT_exp (-1074) 53).
 Notation rnd := (round radix2 fexp ZnearestE).
@@ -233,6 +233,8 @@ Theorem C07_generated_unary : forall p : ph,
   op_pos p = of_opt (from_angles (fst (gen_pos_args p)) (Some (snd (gen_pos_args p))) None None) /\
   op_abs p = of_opt (let '(a, b, s) := gen_abs_args p in from_angles a (Some b) (Some s) None).
 Proof. exact (fun p => conj (op_neg_generated p) (conj (op_pos_generated p) (op_abs_generated p))). Qed.
+Theorem C07_generated_divmod : forall (p : ph) (d : PrimFloat.float), op_divmod p d = gen_divmod p d.
+Proof. exact op_divmod_generated. Qed.
 
 Print Assumptions C07_two_sum_exact.
 Print Assumptions C07_floor.
@@ -256,3 +258,4 @@ Print Assumptions C07_from_angles_flags.
 Print Assumptions C07_generated_day_frac.
 Print Assumptions C07_generated_from_angles.
 Print Assumptions C07_generated_unary.
+Print Assumptions C07_generated_divmod.
